@@ -7,6 +7,9 @@ import hazard_lints
 import predicates
 import twins
 import triggers
+import a4_twin
+import json, os
+from vlib.core import VERIF
 
 
 def run(facts, tier):
@@ -19,6 +22,8 @@ def run(facts, tier):
         ("flavor-aware OR", P.flavor_aware_or, 3, "a sketch's table / window is OR-ed into the union matrix only where that sketch's flavor was determined; anything else goes through build_bit_matrix()"),
         ("window invariant", P.window_invariants, 1, "first_interesting_column is clamped to the window offset whenever it is recomputed"),
         ("pair codec", P.pair_codec, 1, "(row << 6) | col everywhere"),
+        ("flavor boundaries", P.flavor_boundaries, 1, "determine_flavor(lg_k, c) partitions at the exact thresholds c = 0 | 32c < 3k | 2c < k | 8c < 27k, like the update path"),
+        ("serializer twins", lambda fa: [o for o in a4_twin.obligations(fa, set(json.load(open(os.path.join(VERIF, "spec", "twin_armed.json")))["armed"])) if "cpc_" in o["key"]], 1, "the stream and byte writers of the CPC sketch emit the same fields under the same conditions (the compressed image is one format)"),
         ("canonical chains", lambda fa: chains.obligations(fa, ["cpc"]), 11, "typed update overloads follow the cross-language canonicalisation contract"),
         ("couplings", lambda fa: cowrite.obligations(fa, ['u32_table']), 2, "fields that every mutator updates together (counters, extremes, cached values) are still updated together"),
         ("emptiness predicate support", lambda fa: predicates.obligations(fa, ['cpc_sketch_alloc']), 1, "the emptiness predicate still consults every field it depended on in the reviewed tree (spec/predicates.json)"),
